@@ -523,4 +523,42 @@ theorem C13_depth_stats_sample (t : ITree β) (hnd : t.indices.Nodup) :
     (((refDfsT (fun _ => 0) 0 t 0 0).1.filter (fun it => t.isLeafIdx it.idx)).map (·.depth)) = t.leafDepths 0 :=
   refDfsT_leafDepths t 0 t none 0 0 (ITree.find?_of_sub t none hnd)
 
+theorem Dfs.skipN_fresh (n : Nat) (s : Dfs β) (h : s.lastPush = 0) :
+    ∃ lb ub, Dfs.skipN n s = ⟨s.stack, 0, lb, ub⟩ := by
+  induction n generalizing s with
+  | zero => exact ⟨s.lb, s.ub, by cases s; simp_all [Dfs.skipN]⟩
+  | succ n ih =>
+    simp only [Dfs.skipN]
+    have hs : s.skip.stack = s.stack ∧ s.skip.lastPush = 0 := by simp [Dfs.skip, h]
+    obtain ⟨lb, ub, e⟩ := ih s.skip hs.2
+    exact ⟨lb, ub, by rw [e, hs.1]⟩
+
+theorem BfsM.skipN_fresh (n : Nat) (s : BfsM β) (h : s.lastPush = 0) :
+    ∃ lb ub, BfsM.skipN n s = ⟨s.queue, 0, lb, ub⟩ := by
+  induction n generalizing s with
+  | zero => exact ⟨s.lb, s.ub, by cases s; simp_all [BfsM.skipN]⟩
+  | succ n ih =>
+    simp only [BfsM.skipN]
+    have hs : s.skip.queue = s.queue ∧ s.skip.lastPush = 0 := by simp [BfsM.skip, h]
+    obtain ⟨lb, ub, e⟩ := ih s.skip hs.2
+    exact ⟨lb, ub, by rw [e, hs.1]⟩
+
+/-- `skip_subtree` before the first item skips nothing (nothing has been returned yet): the depth-first node traversal
+    still yields the reference pre-order, whatever the later skip schedule is -/
+theorem C13_dfs_run_pre_skip (sk : Nat → Nat) (pre : Nat) (whole start : ITree β) :
+    (Dfs.run sk start.size (Dfs.skipN pre (Dfs.new whole start)) 0).map (·.1) = (refDfsT sk 0 start 0 0).1 := by
+  obtain ⟨lb, ub, e⟩ := Dfs.skipN_fresh pre (Dfs.new whole start) rfl
+  rw [e]
+  have := dfs_run_eq_ref sk start.size [(0, start, 0)] 0 lb ub 0 (by simp [stackSize])
+  simpa [Dfs.new, refStack] using this
+
+/-- the same for the breadth-first traversal -/
+theorem C13_bfs_run_pre_skip (sk : Nat → Nat) (pre : Nat) (whole start : ITree β) :
+    (BfsM.run sk start.size (BfsM.skipN pre (BfsM.new whole start)) 0).map (·.1) = start.refBfs sk := by
+  obtain ⟨lb, ub, e⟩ := BfsM.skipN_fresh pre (BfsM.new whole start) rfl
+  rw [e]
+  have := bfs_run_eq_ref sk (start.size + 1) 0 [(start, 0)] start.size 0 0 lb ub
+    (by simp [forestSize]) (by simp [forestSize])
+  simpa [BfsM.new, qOf, ITree.refBfs] using this
+
 end AV
